@@ -33,7 +33,9 @@ ASSUMPTIONS = ["fingerprints are compared with rtol 1e-9 (GMRF construction uses
                "operations that are documented to modify the object they are called on (enable_FD, disable_FD, compute_cov) "
                "are applied to derived copies only; Likelihood.enable_FD is documented to forward to the wrapped distribution and "
                "is therefore never applied to a Likelihood made by to_likelihood() directly from an original",
-               "the name of a Posterior (inferred from the Python variable name) is not judged"]
+               "the name of a Posterior (inferred from the Python variable name) is not judged",
+               "dim/geometry of a still-conditional distribution whose size is not determined yet are not queried (the getter caches "
+               "a guessed dimension 1 on the object; reading dim is not an operation of the property) - its private geometry must stay size-less"]
 REQUIRED_COUNTERS = {"quick": {"original_fingerprints_compared": 4000, "fingerprint_fields_compared": 200000,
                                "derived_fingerprints_compared": 5000, "twin_fingerprints_compared": 2200,
                                "sibling_vs_fresh_derivation": 1000, "copy_name_checked": 4000, "origin_chain_checked": 3000,
@@ -62,11 +64,11 @@ def _hier_opts(R, tier):
     return {"n": n, "m": R.randint(3, 8), "xprior": R.choice(G.HIER_XPRIORS), "noise": R.choice(G.HIER_NOISES),
             "model": R.choice(G.HIER_MODELS), "lik": R.choice(G.HIER_LIKS), "ndata": R.choice([1, 1, 1, 2, 3]),
             "xmean": R.choice(["zero", "vec"]), "bc": bc, "gorder": gorder, "arg": R.choice(["x", "u"]), "hyper": R.choice(["gamma", "gamma", "uniform", "invgamma"]),
-            "order": R.randint(0, 719)}
+            "order": R.randint(0, 719), "defer": R.choice(G.DEFERRED)}
 
 def _chain_opts(R, tier):
     return {"k": R.choice([1, 1, 2, 3]), "a": R.choice(G.CHAIN_ROOTS), "b": R.choice(G.CHAIN_B), "c": R.choice(G.CHAIN_C),
-            "loose": R.choice(G.CHAIN_LOOSE), "order": R.randint(0, 5)}
+            "loose": R.choice(G.CHAIN_LOOSE), "order": R.randint(0, 5), "defer": R.choice(G.DEFERRED)}
 
 GIBBS_X = ["gmrf_d", "gauss_cov_d", "gauss_prec_d", "lmrf_d", "reg_d", "reggmrf_d", "gmrf_fix", "gauss_covmat"]
 
@@ -171,10 +173,39 @@ def build_world(case):
         _build_hier(W, case["opts"], rs)
     else:
         _build_chain(W, case["opts"], rs)
+    _build_deferred(W, case["opts"], rs)
     import cuqi
     W.joint = cuqi.distribution.JointDistribution(*[W.dists[n] for n in W.st["nodes"]])
     W.orig_ids = {id(o) for _, o in W.originals()}
     return W
+
+def _build_deferred(W, o, rs):
+    """A distribution whose size is unknown until it is conditioned (no geometry, all size-bearing parameters are
+    conditioning variables). Its probe values number 0/1/2 have lengths 3/5/2, so copies derived from this one original
+    get different dimensions; the original itself must stay dimension-less."""
+    import cuqi
+    D = cuqi.distribution
+    kind = o.get("defer", "none")
+    if kind == "none":
+        return
+    if kind == "normal_ms":
+        e = D.Normal(lambda m: m, lambda s: s, name="e")
+    elif kind == "laplace_none":
+        e = D.Laplace(None, None, name="e")
+    elif kind == "gamma_ms":
+        e = D.Gamma(lambda m: 1 + m ** 2, lambda s: s, name="e")
+    elif kind == "uniform_ms":
+        e = D.Uniform(lambda m: m - 1, lambda m, s: m + 1 + s, name="e")
+    else:
+        e = D.Cauchy(lambda m: m, lambda s: s, name="e")
+    W.loose["e"] = e
+    size_par, scale_par = G.DEFERRED_DEPS[kind]
+    W.probes[size_par] = [0.5 * rs.standard_normal(L) for L in G.DEFERRED_LENGTHS]
+    W.probes[scale_par] = [float(v) for v in np.exp(0.3 * rs.standard_normal(3))]
+    if kind == "gamma_ms":
+        W.probes["e"] = [np.exp(0.4 * rs.standard_normal(L)) for L in G.DEFERRED_LENGTHS]
+    else:
+        W.probes["e"] = [W.probes[size_par][j] + 0.3 for j in range(3)]
 
 def _build_hier(W, o, rs):
     import cuqi, scipy.sparse as sp
@@ -591,14 +622,21 @@ def fingerprint(obj, W, depth=0, light=False, rev=False):
     named = is_lik or (is_dist and not is_joint and not isinstance(root, D.Posterior) and getattr(root, "_name", None) is not None)
     if named:
         fp["name"] = _val(lambda: obj.name)
-    fp["dim"] = _val(lambda: obj.dim)
+    # A still-conditional distribution without a size (geometry never given, dimension not inferable yet) is not asked for
+    # dim/geometry: the getter would cache a guess (1, from a scalar parameter) on the object itself. Reading `dim` is not one
+    # of the operations the property speaks about, so the fingerprint must not be the operation that alters the object. The
+    # private geometry is peeked instead: it must stay size-less.
+    g_ = getattr(obj, "__dict__", {}).get("_geometry")
+    sizeless = is_dist and not is_joint and g_ is not None and getattr(g_, "par_dim", 0) is None and \
+        _val(lambda: len(obj.get_conditioning_variables()) > 0) == ("v", True)
+    fp["dim"] = ("v", "sizeless-conditional") if sizeless else _val(lambda: obj.dim)
     if not is_joint or is_dist:
         fp["FD"] = _val(lambda: "%s/%s" % (obj.FD_enabled, obj.FD_epsilon))
         fp["const"] = _val(lambda: obj._constant)
     if is_dist:
         fp["is_cond"] = _val(lambda: obj.is_cond)
         fp["cond_vars"] = _val(obj.get_conditioning_variables)
-        fp["geom"] = _val(lambda: "%s%s" % (type(obj.geometry).__name__, obj.geometry.par_shape))
+        fp["geom"] = ("v", "sizeless-conditional") if sizeless else _val(lambda: "%s%s" % (type(obj.geometry).__name__, obj.geometry.par_shape))
     if is_dist and not is_joint and not is_post:
         mv = _val(lambda: list(obj.get_mutable_variables()))
         fp["mutable_vars"] = mv
